@@ -118,6 +118,11 @@ func stageHandler(st string) map[string]any {
 		return map[string]any{"handler": "tee", "branch": []map[string]any{{"handler": "h_rec", "id": "branch", "buf": 700}}}
 	case "c3":
 		return map[string]any{"handler": "h_consume", "id": "c3", "n": 3}
+	case "subf":
+		// a subroute whose only route is not terminal: the connection falls through it to
+		// whatever follows the subroute
+		return map[string]any{"handler": "subroute", "matching_timeout": "1s", "routes": []map[string]any{
+			{"handle": []map[string]any{{"handler": "h_pass", "id": "in-subf"}}}}}
 	case "rec":
 		return map[string]any{"handler": "h_rec", "id": "rec", "buf": 1500}
 	case "echo":
@@ -442,9 +447,10 @@ func scenarios(tier string, yield func(any) bool) {
 	prefixes := [][]string{{}, {"pp"}, {"tls"}, {"pp", "tls"}, {"tls", "pp"}, {"ppu"}, {"tls", "ppu"}}
 	mids := [][]string{{}, {"thr"}, {"tee"}, {"sub"}, {"c3"},
 		{"thr", "tee"}, {"c3", "tee"}, {"tee", "c3"}, {"sub", "c3"}, {"c3", "sub"}, {"thr", "sub"}, {"sub", "tee"}, {"tee", "sub"},
+		{"subf"}, {"subf", "c3"}, {"c3", "subf"},
 		{"thr", "c3", "tee"}, {"c3", "sub", "tee"}, {"thr", "tee", "sub", "c3"}}
 	if tier == "quick" {
-		mids = mids[:13]
+		mids = mids[:16]
 	}
 	modes := []string{"full", "peek", "one", "drain"}
 	n := 0
